@@ -239,8 +239,21 @@ def one_case(ctx, world, rng, idx, deadline):
     if s0["scheme"] == "https":
         kw = dict(scheme="https", certedhost="localhost", cafilepath=os.path.join(CERTS, "server.pem"))
     url = "%s://%s:%d%s" % (s0["scheme"], s0["host"], s0["port"], start["path"])   # Patron takes the unquoted path
-    patron = clienting.Patron(store=world.store, path=url, qargs=_od(start["query"]), method=method,
-                              headers=_od([("X-Vf-Id", tag)]), **kw)
+    import random as _random
+    r2 = _random.Random(repr((tag, "connector")))
+    if s0["scheme"] == "https" and r2.random() < 0.5:
+        # the application hands the Patron its own TLS connector and names no scheme: the session is an https session
+        from ioflo.aio.tcp import clienting as tclienting
+        conn = tclienting.ClientTls(store=world.store, host=s0["host"], port=s0["port"], certedhost="localhost",
+                                    cafilepath=os.path.join(CERTS, "server.pem"))
+        patron = clienting.Patron(store=world.store, connector=conn, path=start["path"], qargs=_od(start["query"]), method=method,
+                                  headers=_od([("X-Vf-Id", tag)]))
+        ctx.hit("https_sessions_on_a_supplied_connector")
+        if downgrade_at is not None:
+            ctx.hit("downgrade_cases_on_a_supplied_connector")
+    else:
+        patron = clienting.Patron(store=world.store, path=url, qargs=_od(start["query"]), method=method,
+                                  headers=_od([("X-Vf-Id", tag)]), **kw)
     patron.connector.reopen()
     patron.connector.cs.setsockopt(socket.IPPROTO_TCP, socket.TCP_NODELAY, 1)
     patron.transmit()
@@ -436,6 +449,7 @@ def run(ctx):
     ctx.floor("second_chain_on_same_patron", total // 10)
     ctx.floor("second_exchange_by_transmit", total // 30)
     ctx.floor("downgrade_cases", total // 60)
+    ctx.floor("downgrade_cases_on_a_supplied_connector", total // 400)
     for f, d in (("abs", 4), ("abspath", 10), ("relpath", 10), ("queryonly", 20), ("netpath", 8)):
         ctx.floor("form:" + f, total // d)
     for st in (300, 301, 302, 303, 307, 308):
